@@ -59,6 +59,23 @@ CHECKS = {
         'note': _NOTE + ' Runs that write no record are outside the property.  Parameter values inside listings are C09\'s subject; C10 compares names, n_data, n_fits, row counts.',
         'technique': 'TLA+ state machine + TLC (safety, action properties, liveness); -simulate behaviours replayed through the real pipeline; trace validation with silent steps',
     },
+    'C12': {
+        'text': 'SpectralStore.tla models SED and cube objects and files as layouts of cell tokens <<model, aperture, wavelength rank>> along a spectral axis of ranks; writers (SED.write sorts by frequency, a cube is stored as given), '
+                'readers (reverse everything together when the requested order differs) and get_sed are permutations.  TLC checks on EVERY history of 5 operations (create asc|desc x SED|cube x with/without uncertainties, write, read nu|wav, get_sed) '
+                'that no cell is ever separated from its wavelength/aperture/model (ReadBack, ModelIdentity), that the axis is monotone and that the other order only reverses.  Every history is replayed on real files with per-cell distinct values, '
+                'random concrete sizes (1-6 models, none/1-5 apertures, 2-40 wavelengths), flux unit in {mJy, Jy, erg/cm2/s, erg/s}, memmap on/off; plus ConvolvedFluxes.write/read round trips.',
+        'ref': 'DESIGN.md section 6 C12',
+        'note': _NOTE + ' The spec decides which cell goes where; value fidelity (dtype, the nu*F_nu round trip, 1e-9) is enforced by the harness on the replayed cells only.',
+        'technique': 'TLA+ spec of layouts/permutations + TLC exhaustive over all histories; every history replayed on real FITS files',
+    },
+    'C15': {
+        'text': 'Units.tla is the exponent algebra of convert_flux (F = nu F_nu, L = F d^2, powers of ten): TLC checks RoundTrip, PathIndependent, FamilyRelations and ChainIsDirect for all 5x5 pairs and 5x5x5 triples of '
+                '{mJy, Jy, erg/cm2/s, W/m2, erg/s}.  Every pair and triple is replayed through SED.write -> SED.read(unit_flux=...) -> write -> read with 1-5 apertures, per-cell frequencies and distances that are powers of ten '
+                '(so the expected value is exact), and an unsupported unit (K) must be refused.',
+        'ref': 'DESIGN.md section 6 C15',
+        'note': _NOTE + ' The family fits this property least (DESIGN.md 9): the spec is an additive group and nearly all assurance is the exhaustive replay; astropy unit arithmetic is trusted.',
+        'technique': 'TLA+ exponent-algebra spec + TLC; exhaustive replay of all unit pairs/triples through real SED files',
+    },
     'C13': {
         'text': 'ApInterpOps.tla gives aperture interpolation of one row exactly (PwLin: refuse below, clamp above, linear between, single aperture repeated); ApInterp.tla builds every table '
                 'over radii subsets of {1,2,4,8,16} AU (1..3 knots quick, 1..4 thorough), 2 rows, values in {0,1,3} (0..3) and TLC checks ExactAtKnots, LinearBetween, ClampedAbove, RefusedBelow, '
